@@ -3,7 +3,7 @@
    Fault sites of the model: a stream item RRaise (exception while evaluating the pattern or while constructing the Event),
    the [dev_fail]-th note_on / control / program_change call of the device raising, an action callback raising an
    Exception (CbExc) or StopIteration (CbStop). *)
-From Isobar Require Import Base.Prelude Sched.Model Sched.TimeProofs Sched.MergeProofs Sched.FaultProofs Sched.RenameProofs.
+From Isobar Require Import Base.Prelude Sched.Model Sched.TimeProofs Sched.MergeProofs Sched.FaultProofs Sched.RenameProofs Sched.TickFrame Sched.ReachProofs.
 
 (** * Tolerant mode: containment *)
 (* With ignore_exceptions, for EVERY state of the timeline (any number and order of tracks, any streams, any device
@@ -173,6 +173,39 @@ Proof. exact callback_stop_ends_track. Qed.
 Theorem C17_ended_stream_is_silent : forall tr, t_stream tr = empty_stream -> fst (get_next_event tr) = GStop.
 Proof. exact empty_stream_stops. Qed.
 
+(** * Reachable states: the distinct-ids hypothesis of the per-turn theorems always holds *)
+(* [reachable cfg tl] (Sched/ReachProofs.v): tl is the empty timeline, or the state after any operation on a reachable
+   state, or - inside a tick - the state the loop over the tracks starts from ([tick_pre]) or the state after any turn.
+   The state after every history is reachable, and in every reachable state the track ids are distinct and below next_id. *)
+Theorem C17_history_reachable : forall cfg h, reachable cfg (run_state cfg tl0 h).
+Proof. exact history_reachable. Qed.
+Theorem C17_ids_distinct : forall cfg tl, reachable cfg tl ->
+  NoDup (map t_id (tracks tl)) /\ Forall (fun i => (i < next_id tl)%nat) (map t_id (tracks tl)).
+Proof. exact reachable_wf. Qed.
+Theorem C17_failing_track_removed_reachable : forall cfg tl id tr tr1 c n1, ignore_exc cfg = true -> reachable cfg tl ->
+  find_track id (tracks tl) = Some tr ->
+  track_tick_a cfg (now tl) tr (dev_calls tl) = (tr1, c, n1, TRaise) ->
+  let '(tl', c', ab) := tick_one cfg tl id in
+  ab = None /\ c' = c
+  /\ find_track id (tracks tl') = None
+  /\ (forall id', id' <> id -> find_track id' (tracks tl') = find_track id' (tracks tl))
+  /\ actions tl' = actions tl ++ release_actions tr1
+  /\ now tl' = now tl.
+Proof.
+  intros cfg tl id tr tr1 c n1 H R F. exact (fault_turn cfg H tl id tr tr1 c n1 F (proj1 (reachable_wf cfg tl R))).
+Qed.
+Theorem C17_callback_stop_reachable : forall cfg tl id tr tr1 c n1 cb, reachable cfg tl ->
+  find_track id (tracks tl) = Some tr ->
+  track_tick_a cfg (now tl) tr (dev_calls tl) = (tr1, c, n1, TCallback cb) ->
+  nth cb (cbs cfg) (CbNone, []) = (CbStop, []) -> t_offs tr1 = [] ->
+  let '(tl', _, ab) := tick_one cfg tl id in
+  ab = None /\
+  if t_rwd tr1 then find_track id (tracks tl') = None
+  else exists tr', find_track id (tracks tl') = Some tr' /\ t_finished tr' = true /\ t_stream tr' = empty_stream.
+Proof.
+  intros cfg tl id tr tr1 c n1 cb R F. exact (callback_stop_ends_track cfg tl id tr tr1 c n1 cb F (proj1 (reachable_wf cfg tl R))).
+Qed.
+
 (** * Non-vacuity *)
 (* track 0 (channel 0) plays two notes; track 1 (channel 1) raises on its second pull, on a tick on which track 0 and
    track 2 play too; track 2 (channel 2) calls a callback that raises an Exception, then plays on *)
@@ -210,6 +243,15 @@ Example C17_same_as_without_nonvacuous :
      = [[CCallback 0]; []; [CNoteOn 70 64 2]; [CNoteOff 70 2]; []]
   /\ map snd (run (fx_cfg true) tl0 (drop_track 1 0 fx_h)) = [[0]; [0; 1]; [0; 1]; [0; 1]; [0; 1]; [0; 1]; []]%nat.
 Proof. vm_compute. repeat split. Qed.
+
+(* the state in which track 1 of fx_h faults - third tick, after the turn of track 0 - is reachable, and the turn of track 1 raises there *)
+Example C17_reachable_nonvacuous :
+  let tl := fst (fst (tick_one (fx_cfg true) (tick_pre (run_state (fx_cfg true) tl0 (firstn 5 fx_h))) 0)) in
+  reachable (fx_cfg true) tl /\
+  exists tr, find_track 1 (tracks tl) = Some tr /\ snd (track_tick_a (fx_cfg true) (now tl) tr (dev_calls tl)) = TRaise.
+Proof.
+  split; [apply R_turn, R_pre, history_reachable|]. eexists. split; vm_compute; reflexivity.
+Qed.
 
 (* StopIteration from a callback on a retained track (remove_when_done = false): finished, stream exhausted, silent *)
 Definition st_cfg : config := mkConfig 1 [(CbStop, [])] 0 0 false false None 8.
